@@ -172,11 +172,13 @@ func (xaManager *XAResourceManager) BranchCommit(ctx context.Context, branchReso
 	}
 
 	err = connectionProxyXA.XaCommit(ctx, xaID)
+	connectionProxyXA.CloseDetached()
 	if errors.Is(err, driver.ErrBadConn) {
 		// the kept connection is gone; the branch is still prepared in the
 		// database and can be finished over a new connection
 		if connectionProxyXA, err = xaManager.finishBranch(ctx, xaID, branchResource); err == nil {
 			err = connectionProxyXA.XaCommit(ctx, xaID)
+			connectionProxyXA.CloseDetached()
 		}
 	}
 	if err != nil {
@@ -197,10 +199,12 @@ func (xaManager *XAResourceManager) BranchRollback(ctx context.Context, branchRe
 	}
 
 	err = connectionProxyXA.XaRollbackByBranchId(ctx, xaID)
+	connectionProxyXA.CloseDetached()
 	if errors.Is(err, driver.ErrBadConn) {
 		// see BranchCommit
 		if connectionProxyXA, err = xaManager.finishBranch(ctx, xaID, branchResource); err == nil {
 			err = connectionProxyXA.XaRollbackByBranchId(ctx, xaID)
+			connectionProxyXA.CloseDetached()
 		}
 	}
 	if err != nil {
